@@ -776,8 +776,8 @@ def compare(ctx: Ctx, cases):
 def run(ctx: Ctx):
     import warnings
     warnings.filterwarnings("ignore")
-    n_hist = ctx.n(40, 1200)
-    max_ops = 30 if ctx.tier == "quick" else 60
+    n_hist = ctx.n(40, 300)          # thorough: 300 histories of up to 45 operations (the table view is read after every one)
+    max_ops = 30 if ctx.tier == "quick" else 45
     tracer = Tracer()
     tracer.install()
     cases = []
